@@ -1025,6 +1025,17 @@ def rule_N5(ctx):
                 if isinstance(t, (ast.For, ast.comprehension)) and ast.unparse(t.target) == ast.unparse(x.slice) and \
                         ast.unparse(t.iter) in (ast.unparse(base), ast.unparse(base) + '.keys()'):
                     guarded = True       # the key iterates over the table itself
+            if not guarded and isinstance(x.slice, ast.Constant):
+                # a literal key that the literal table lists
+                tbl = base if isinstance(base, ast.Dict) else None
+                if tbl is None:
+                    nm_ = ast.unparse(base).split('.')[-1]
+                    for mod in m.mods:
+                        gv = m.modglobals[mod].get(nm_)
+                        if isinstance(gv, ast.Dict):
+                            tbl = gv
+                if tbl is not None and any(isinstance(k, ast.Constant) and k.value == x.slice.value and type(k.value) is type(x.slice.value) for k in tbl.keys):
+                    guarded = 'literal key listed in the table'
             if not guarded:
                 guarded = _keys_are_allowed_lengths(ctx, f, base)
             if not guarded:
